@@ -131,10 +131,12 @@ func (c *CapturedTicker) Fire(timeout Duration) bool {
 }
 
 func NewTicker(d Duration) *Ticker {
-	if d <= 0 {
+	if d <= 0 && !capture.Load() {
 		panic("non-positive interval for NewTicker")
 	}
 	if capture.Load() {
+		// (a captured ticker with a non-positive period is recorded, not a panic in a background
+		// goroutine: the harness reports it)
 		ct := &CapturedTicker{Period: d, c: make(chan Time)}
 		capMu.Lock()
 		captured = append(captured, ct)
